@@ -316,5 +316,65 @@ FpxAccept(e) ==
 (* Known findings (DESIGN.md 2.8): narrowly keyed, enabled only when       *)
 (* listed in known_findings.json.                                          *)
 (***************************************************************************)
-FpxKnownKey(e) == ""
+AllZeroRaw(s) == \A i \in 1..Len(s) : BNorm(s[i]) = <<>>
+(* flat positions of the compressed coefficient g2 = a[1][0] *)
+G2Pos(e) == IF e.lvl = 12 THEN {7, 8} ELSE {10, 11, 12}
+G2Zero(e, s) == \A i \in G2Pos(e) : BNorm(s[i]) = <<>>
+FpxKnownKey(e) ==
+    CASE \* the membership test x^(p^(n/3)) * x = x^(p^(n/6)) is evaluated by relation and holds for x = 0
+         e.f = "test_cyc" /\ e.lvl \in {12, 18, 24, 48, 54} /\ Len(e.a) = e.lvl /\ AllZeroRaw(e.a)
+                /\ e.ret = 1 /\ e.err = 0 /\ e.code = 0 /\ e.unch
+            -> "C10-test-cyc-accepts-zero"
+         \* decompression of a non-trivial compressed element whose coefficient g2 = a[1][0] is zero: the
+         \* numerator 2 g4 g5 selected for that case is overwritten by the steps of the other branch
+      [] e.f = "back_cyc" /\ e.lvl \in {12, 18} /\ Len(e.a) = e.lvl /\ Len(e.c) = e.lvl
+                /\ G2Zero(e, e.a) /\ ~AllZeroRaw([i \in 1..(e.lvl - 1) |-> e.a[i + 1]])
+                /\ e.err = 0 /\ e.code = 0 /\ e.unch /\ CanonAll(e, e.c)
+                /\ \A i \in PckPos(e) : e.c[i] = e.a[i]
+            -> "C10-back-cyc-g2-zero"
+      [] e.f = "back_cyc_sim" /\ e.lvl \in {12, 18} /\ e.err = 0 /\ e.code = 0 /\ e.unch
+                /\ Len(e.as) = e.n /\ Len(e.cs) = e.n
+                /\ (\E j \in 1..e.n : Len(e.as[j]) = e.lvl /\ G2Zero(e, e.as[j])
+                                         /\ ~AllZeroRaw([i \in 1..(e.lvl - 1) |-> e.as[j][i + 1]]))
+                \* every member whose g2 is not zero is decompressed correctly
+                /\ LET ri == RInv(e)
+                       T  == TowerOf(e, ri, e.lvl)
+                       gs == FrbConsts(T) IN
+                   \A j \in 1..e.n :
+                       IF Len(e.as[j]) = e.lvl /\ G2Zero(e, e.as[j]) THEN Len(e.cs[j]) = e.lvl
+                       ELSE IsEl(e, e.as[j]) /\ BackOne(e, ri, T, gs, e.as[j], e.cs[j])
+            -> "C10-back-cyc-g2-zero"
+         \* fp12_exp_cyc_sim with a pairing-friendly curve configured: the sign of the FIRST exponent is
+         \* applied to the second one as well - the result is a^b * d^(-e2) when the signs differ
+      [] e.f = "exp_cyc_sim" /\ e.lvl = 12 /\ e.pf # 0 /\ e.ek = 12
+                /\ BNorm(e.e.d) # <<>> /\ BNorm(e.e2.d) # <<>> /\ e.e.s # e.e2.s
+                /\ e.err = 0 /\ e.code = 0 /\ e.unch /\ Len(e.a) = 12 /\ Len(e.d) = 12 /\ Len(e.c) = 12 /\ CanonAll(e, e.c)
+                /\ LET ri == RInv(e)
+                       T  == TowerOf(e, ri, 12)
+                       a  == El(e, ri, T, e.a)
+                       d  == El(e, ri, T, e.d)
+                   IN  /\ OrderDivides(T, a, BNorm(e.r)) /\ OrderDivides(T, d, BNorm(e.r))
+                       /\ El(e, ri, T, e.c) = TMul(T, 3, PowInt(T, a, IntOf(e.e))[2], PowInt(T, d, INeg(IntOf(e.e2)))[2])
+            -> "C10-exp-cyc-sim-sign"
+         \* fpN_exp on a ZERO base at the levels whose exponentiation asks fpN_test_cyc first: zero passes that
+         \* test (finding above) and is sent down the cyclotomic path - an error for positive exponents,
+         \* a silent zero for negative ones
+      [] e.f = "exp" /\ e.lvl \in {12, 18, 24, 48, 54} /\ Len(e.a) = e.lvl /\ AllZeroRaw(e.a)
+                /\ BNorm(e.e.d) # <<>> /\ e.unch
+                /\ ((e.err # 0 /\ e.code = 1) \/ (e.err = 0 /\ e.code = 0 /\ Len(e.c) = e.lvl /\ AllZeroRaw(e.c)))
+            -> "C10-exp-zero-base-cyc-path"
+         \* fpN_exp_dig on a cyclotomic element recodes the digit in NAF but starts the ladder at the top
+         \* BINARY bit: wrong whenever the NAF is one digit longer than the binary form (3 b > 2^(bits + 1))
+      [] e.f = "exp_dig" /\ e.lvl \in {8, 12, 16, 18, 24, 48, 54} /\ Len(e.a) = e.lvl /\ Len(e.c) = e.lvl
+                /\ e.err = 0 /\ e.code = 0 /\ e.unch /\ CanonAll(e, e.c) /\ CanonAll(e, e.a)
+                /\ BLt(BShl(<<1>>, BBits(BNorm(e.dg)) + 1), BMul(<<3>>, BNorm(e.dg)))
+                /\ LET ri == RInv(e)
+                       T  == TowerOf(e, ri, e.lvl) IN InCyc(T, FrbConsts(T), e.lvl, El(e, ri, T, e.a))
+            -> "C10-exp-dig-cyc-naf-length"
+         \* fp16_frb: the loop counts the power modulo 8 (powers 8..15 of a degree-16 field are not reduced
+         \* correctly) and its constants do not fit primes = 3 mod 4
+      [] e.f = "frb" /\ e.lvl = 16 /\ Len(e.a) = 16 /\ Len(e.c) = 16 /\ e.err = 0 /\ e.code = 0 /\ e.unch
+                /\ CanonAll(e, e.c) /\ e.k >= 1 /\ (e.k % 16 >= 8 \/ BMod(P(e), <<4>>) = <<3>>)
+            -> "C10-fp16-frb"
+      [] OTHER -> ""
 =============================================================================
